@@ -1644,8 +1644,16 @@ int sslreadtimeout(SSL *ssl, unsigned char *buf, int num, int timeout, pthread_m
             pthread_mutex_unlock(lock);
 
             ndesc = poll(fds, 1, timeout ? timeout * 1000 : -1);
-            if (ndesc == 0)
+            if (ndesc == 0) {
+                if (len > 0) {
+                    /* timeout inside a message: connection unusable */
+                    pthread_mutex_lock(lock);
+                    SSL_shutdown(ssl);
+                    pthread_mutex_unlock(lock);
+                    return -1;
+                }
                 return ndesc;
+            }
 
             pthread_mutex_lock(lock);
             if (ndesc < 0 || fds[0].revents & (POLLERR | POLLHUP | POLLNVAL)) {
@@ -1810,6 +1818,12 @@ int radtlsget(SSL *ssl, int timeout, pthread_mutex_t *lock, uint8_t **buf) {
     cnt = sslreadtimeout(ssl, *buf + 4, len - 4, timeout, lock);
     if (cnt < 1) {
         debug(DBG_DBG, cnt ? "radtlsget: connection lost" : "radtlsget: timeout");
+        if (!cnt) {
+            /* the header is already consumed, the stream cannot be resumed */
+            pthread_mutex_lock(lock);
+            SSL_shutdown(ssl);
+            pthread_mutex_unlock(lock);
+        }
         free(*buf);
         *buf = NULL;
         return 0;
